@@ -709,6 +709,14 @@ func (c *SpecCtx) evalCall(x *ECall) (Val, types.Type) {
 			c.fail("lastarg: %s has no usable argument %d", key.V, idx)
 		}
 		return lc.args[idx], lc.argT[idx]
+	case "bytesarr":
+		// bytesarr(a): the content of a byte-array value as a string (what a[:] reads as)
+		v, _ := c.eval(x.Args[0])
+		tv, ok := v.(Term)
+		if !ok || !strings.HasPrefix(string(tv.Sort), "|Arr ") {
+			c.fail("bytesarr of a non-array value")
+		}
+		return e.arrStr(tv), types.Typ[types.String]
 	case "same":
 		// same(a, b): identical values (for floats: bitwise-identical up to NaN payload, unlike ==)
 		a, _ := c.eval(x.Args[0])
